@@ -159,6 +159,17 @@ func (r *Report) Decide(verifDir string, replay func(o *Obligation) (path string
 		}
 	}
 	// claimed groups that are no longer generated
+	staleUnexported := map[string]bool{}
+	staleSeen := map[string]bool{}
+	for _, e := range r.Errors {
+		if strings.HasPrefix(e, "STALE-CONTRACT") && staleIsUnexported(e) {
+			for g := range led.Groups {
+				if strings.Contains(e, "no function "+keyOfGroupFunc(groupFunc(g))+" in") {
+					staleUnexported[groupFunc(g)] = true
+				}
+			}
+		}
+	}
 	var gs []string
 	for g := range led.Groups {
 		gs = append(gs, g)
@@ -166,6 +177,15 @@ func (r *Report) Decide(verifDir string, replay func(o *Obligation) (path string
 	sort.Strings(gs)
 	for _, g := range gs {
 		if seenGroups[g] == 0 {
+			if unexportedFuncGroup(g) && staleUnexported[groupFunc(g)] {
+				// an unexported helper under contract was renamed/merged: its callers are
+				// verified against the new code instead (anchoring on exported API, DESIGN §2.2)
+				if !staleSeen[groupFunc(g)] {
+					staleSeen[groupFunc(g)] = true
+					out.Undecided = append(out.Undecided, "STALE-CONTRACT "+groupFunc(g)+": unexported helper no longer exists; its obligations are dropped, callers are checked against the current code")
+				}
+				continue
+			}
 			out.Claimed++
 			o := &Obligation{Name: g + "#missing", Prop: r.Prop, Status: "missing", Note: "claimed obligation group is no longer generated (contract target renamed, removed, or no longer reached)"}
 			path := writeReplayFile(verifDir, o, "", "obligation-missing")
@@ -173,6 +193,9 @@ func (r *Report) Decide(verifDir string, replay func(o *Obligation) (path string
 		}
 	}
 	for _, e := range r.Errors {
+		if strings.HasPrefix(e, "STALE-CONTRACT") && staleIsUnexported(e) {
+			continue
+		}
 		o := &Obligation{Name: r.Prop + "/contract-error", Prop: r.Prop, Status: "error", Note: e}
 		path := writeReplayFile(verifDir, o, "", "contract could not be applied to the current source")
 		violationLines = append(violationLines, fmt.Sprintf("VIOLATION property=%s replay=%s reason=contract-error no-failing-input-found :: %s", r.Prop, path, clipText(e)))
@@ -313,4 +336,61 @@ func WriteLedger(verifDir, prop string, obls []*Obligation) {
 			fmt.Println("  not claimed:", g)
 		}
 	}
+}
+
+
+// groupFunc extracts the function part of "<prop>/<func>/<kind>".
+func groupFunc(g string) string {
+	i := strings.Index(g, "/")
+	j := strings.LastIndex(g, "/")
+	if i < 0 || j <= i {
+		return g
+	}
+	return g[i+1 : j]
+}
+
+// keyOfGroupFunc maps a display name like "(*lint.CertificateLint).execute" or
+// "lint.checkEffective" to the contract key "(*CertificateLint).execute" / "checkEffective".
+func keyOfGroupFunc(f string) string {
+	if strings.HasPrefix(f, "(") {
+		i := strings.Index(f, ")")
+		inner := f[1:i]
+		star := ""
+		if strings.HasPrefix(inner, "*") {
+			star = "*"
+			inner = inner[1:]
+		}
+		if k := strings.LastIndex(inner, "."); k >= 0 {
+			inner = inner[k+1:]
+		}
+		return "(" + star + inner + ")" + f[i+1:]
+	}
+	if k := strings.LastIndex(f, "."); k >= 0 {
+		return f[k+1:]
+	}
+	return f
+}
+
+func unexportedFuncGroup(g string) bool {
+	f := groupFunc(g)
+	k := strings.LastIndex(f, ".")
+	name := f[k+1:]
+	return name != "" && name[0] >= 'a' && name[0] <= 'z'
+}
+
+func staleIsUnexported(e string) bool {
+	// "STALE-CONTRACT file:line: no function KEY in PKG"
+	i := strings.Index(e, "no function ")
+	if i < 0 {
+		return false
+	}
+	rest := e[i+len("no function "):]
+	j := strings.Index(rest, " in ")
+	if j < 0 {
+		return false
+	}
+	key := rest[:j]
+	k := strings.LastIndex(key, ".")
+	name := key[k+1:]
+	return name != "" && name[0] >= 'a' && name[0] <= 'z'
 }
